@@ -1,4 +1,6 @@
-import Refine.Lemmas.Cavity2Enlarge
+import Refine.Lemmas.Cavity2Collapse
+import Refine.Lemmas.Cavity2Conf
+import Refine.Lemmas.Cavity2SwapChain
 import Refine.Props.C01
 
 /-!
@@ -70,6 +72,78 @@ theorem replace_ids_from_segs (c : Cav) :
   split at hst
   · cases hst
   · simp only [Option.some.injEq] at hst; subst hst; exact ⟨s, hs, rfl, rfl, rfl, rfl⟩
+
+/-! ### the boundary patch: vector area -/
+
+section areavec
+open Refine Refine.Model.Geom Refine.ScalarReal
+
+/-- the three components of `ref_node_tri_normal` (twice the area vector) of the triangle `(x a, x b, p)` -/
+noncomputable def coneNx (x : Int → V3 ℝ) (p : V3 ℝ) (a b : Int) : ℝ := (triNormal (x a) (x b) p).x
+noncomputable def coneNy (x : Int → V3 ℝ) (p : V3 ℝ) (a b : Int) : ℝ := (triNormal (x a) (x b) p).y
+noncomputable def coneNz (x : Int → V3 ℝ) (p : V3 ℝ) (a b : Int) : ℝ := (triNormal (x a) (x b) p).z
+
+theorem coneNx_alt (x : Int → V3 ℝ) (p : V3 ℝ) : Alt2 (coneNx x p) := by
+  refine ⟨fun a b => ?_, fun a => ?_⟩ <;>
+  · simp only [coneNx, triNormal, cross, V3.sub, sub_eq, mul_eq]; ring
+theorem coneNy_alt (x : Int → V3 ℝ) (p : V3 ℝ) : Alt2 (coneNy x p) := by
+  refine ⟨fun a b => ?_, fun a => ?_⟩ <;>
+  · simp only [coneNy, triNormal, cross, V3.sub, sub_eq, mul_eq]; ring
+theorem coneNz_alt (x : Int → V3 ℝ) (p : V3 ℝ) : Alt2 (coneNz x p) := by
+  refine ⟨fun a b => ?_, fun a => ?_⟩ <;>
+  · simp only [coneNz, triNormal, cross, V3.sub, sub_eq, mul_eq]; ring
+
+theorem triBd_coneNx (x : Int → V3 ℝ) (p : V3 ℝ) (t : Tri) :
+    triBd (coneNx x p) t = (triNormal (x t.n0) (x t.n1) (x t.n2)).x := by
+  rw [triBd_eq]; simp only [coneNx, triNormal, cross, V3.sub, sub_eq, mul_eq]; ring
+theorem triBd_coneNy (x : Int → V3 ℝ) (p : V3 ℝ) (t : Tri) :
+    triBd (coneNy x p) t = (triNormal (x t.n0) (x t.n1) (x t.n2)).y := by
+  rw [triBd_eq]; simp only [coneNy, triNormal, cross, V3.sub, sub_eq, mul_eq]; ring
+theorem triBd_coneNz (x : Int → V3 ℝ) (p : V3 ℝ) (t : Tri) :
+    triBd (coneNz x p) t = (triNormal (x t.n0) (x t.n1) (x t.n2)).z := by
+  rw [triBd_eq]; simp only [coneNz, triNormal, cross, V3.sub, sub_eq, mul_eq]; ring
+
+/-- one component of the area statement -/
+theorem area_component (ψ : Int → Int → ℝ) (hψ : Alt2 ψ) (N : Tri → ℝ) (hN : ∀ t, triBd ψ t = N t) (g : Grid α)
+    (c : Cav)
+    (hchain : ∀ χ : Int → Int → ℝ, Alt2 χ → segSum χ c.validSegs = (c.triList.map (triBdAt χ g)).sum) :
+    ((newTris c).map N).sum =
+      (c.triList.map fun cell => match g.tris.get? cell with | some t => N t | none => 0).sum := by
+  have := replace_conforming_2d hψ g c hchain
+  have e1 : (newTris c).map (triBd ψ) = (newTris c).map N := List.map_congr_left (fun t _ => hN t)
+  have e2 : c.triList.map (triBdAt ψ g) =
+      c.triList.map fun cell => match g.tris.get? cell with | some t => N t | none => 0 := by
+    apply List.map_congr_left
+    intro cell _
+    unfold triBdAt
+    cases g.tris.get? cell with
+    | none => rfl
+    | some t => exact hN t
+  rw [e1, e2] at this
+  exact this
+
+/-- **replace_area_vector.**  When the live segs are the signed boundary of the listed boundary tris (for every
+    antisymmetric edge cochain — the seg chain `insertSeg_ledger` tracks), the boundary tris `ref_cavity_replace`
+    creates have exactly the VECTOR area of the tris it removes: each component of `Σ ref_node_tri_normal` is
+    conserved, in exact arithmetic, for any position of the seg node and any shape of the patch.  On a planar patch
+    this is the conservation of the (signed) patch area. -/
+theorem replace_area_vector (x : Int → V3 ℝ) (g : Grid α) (c : Cav)
+    (hchain : ∀ χ : Int → Int → ℝ, Alt2 χ → segSum χ c.validSegs = (c.triList.map (triBdAt χ g)).sum) :
+    ((newTris c).map fun t => (triNormal (x t.n0) (x t.n1) (x t.n2)).x).sum =
+      (c.triList.map fun cell => match g.tris.get? cell with
+        | some t => (triNormal (x t.n0) (x t.n1) (x t.n2)).x | none => 0).sum ∧
+    ((newTris c).map fun t => (triNormal (x t.n0) (x t.n1) (x t.n2)).y).sum =
+      (c.triList.map fun cell => match g.tris.get? cell with
+        | some t => (triNormal (x t.n0) (x t.n1) (x t.n2)).y | none => 0).sum ∧
+    ((newTris c).map fun t => (triNormal (x t.n0) (x t.n1) (x t.n2)).z).sum =
+      (c.triList.map fun cell => match g.tris.get? cell with
+        | some t => (triNormal (x t.n0) (x t.n1) (x t.n2)).z | none => 0).sum := by
+  have p : V3 ℝ := x 0
+  exact ⟨area_component (coneNx x p) (coneNx_alt x p) _ (triBd_coneNx x p) g c hchain,
+    area_component (coneNy x p) (coneNy_alt x p) _ (triBd_coneNy x p) g c hchain,
+    area_component (coneNz x p) (coneNz_alt x p) _ (triBd_coneNz x p) g c hchain⟩
+
+end areavec
 
 /-! ### grid level -/
 
@@ -191,6 +265,31 @@ theorem certified_step (g g' : Grid α) (c c' : Cav) (hc : certOk g c = true) (h
   · intro H _ χ hχ hd
     exact ledgerOkAt_sound hχ hd g c h4
 
+/-- **certified_ids** ("the set of face ids does not grow; new boundary tris inherit the id of a removed one"): with
+    the executable clause `segIdsOk` (every live seg carries the id of a listed boundary tri), after an accepted
+    replacement every live boundary tri is an old one or has the face id of a boundary tri that was removed.
+    (`_partial` with respect to "the SET of face ids is unchanged": that no id disappears is not a property of the
+    cavity operator — a patch reduced to the removed tris would lose its id — and is left to the callers' guards.) -/
+theorem certified_ids_partial (g g' : Grid α) (c c' : Cav) (hinv : GridInv g) (hc : certOk g c = true)
+    (hids : segIdsOk g c = true) (h : replace g c = (.ok, c', g')) :
+    ∀ t ∈ g'.tris.valid, t ∈ g.tris.valid ∨
+      ∃ cell ∈ c.triList, ∃ r, g.tris.get? cell = some r ∧ r.id = t.id := by
+  simp only [certOk, Bool.and_eq_true, List.all_eq_true] at hc
+  obtain ⟨⟨⟨h1, h2⟩, _⟩, _⟩ := hc
+  have hlt : ∀ cell ∈ c.tetList, ∃ t, g.tets.get? cell = some t :=
+    fun cell hcell => Option.isSome_iff_exists.mp (h1 cell hcell)
+  have hls : ∀ cell ∈ c.triList, ∃ t, g.tris.get? cell = some t :=
+    fun cell hcell => Option.isSome_iff_exists.mp (h2 cell hcell)
+  intro t ht
+  rcases replace_tris_ids g g' c c' hinv h hlt hls t ht with h0 | ⟨s, hs, hid⟩
+  · exact Or.inl h0
+  · right
+    simp only [segIdsOk, List.all_eq_true, List.any_eq_true, beq_iff_eq] at hids
+    obtain ⟨r, hr, hrid⟩ := hids s hs
+    simp only [listedTris, List.mem_filterMap] at hr
+    obtain ⟨cell, hcell, hget⟩ := hr
+    exact ⟨cell, hcell, r, hget, by rw [hrid, hid]⟩
+
 /-! ## 2. the enlarge loops
 
 `ref_cavity_enlarge_visible` has no iteration cap in the C (`while (keep_growing)`).  The model runs it with two
@@ -237,6 +336,32 @@ theorem enlargeVisible_terminates (g : Grid α) (c : Cav) (hinv : CavOK g c) (c'
         · next r hr => intro e; subst e; exact hnf hr
         · split <;> simp
       · simp
+
+/-- **enlargeConforming_terminates** (b, boundary loop): on a cavity that lists tets (the 3-D case) and whose lists
+    are duplicate free and live, the modelled `ref_cavity_enlarge_conforming` never runs out of its budgets
+    (`#tri slots + 1` sweeps, as many cavity-changing `enlarge_seg` calls per sweep): every such call lists a new live
+    boundary tri — whatever the conformity predicate `conf` (`ref_cavity_conforming`, CAD) answers. -/
+theorem enlargeConforming_terminates (g : Grid α) (conf : Cav → Seg → Bool) (c : Cav) (hinv : CavOK g c)
+    (htl : c.tetList ≠ []) (c' : Cav) : enlargeConforming g conf c ≠ .fuel c' := by
+  unfold enlargeConforming
+  split
+  · simp
+  · split
+    · simp
+    · split
+      · simp
+      · rcases verifySegManifold_cases c with hv | hv | hv <;> rw [hv] <;> simp only []
+        · have hnf := confLoop_no_fuel g conf (confBudget g) (confBudget g) c hinv htl (by simp [confBudget])
+            (by simp only [confBudget]; omega) c'
+          split
+          · next r hr => intro e; subst e; exact hnf hr
+          · split <;> simp
+        · have hnf := confLoop_no_fuel g conf (confBudget g) (confBudget g) { c with state := .inconsistent }
+            (cavInv_state hinv _) htl (by simp [confBudget]) (by simp only [confBudget]; omega) c'
+          split
+          · next r hr => intro e; subst e; exact hnf hr
+          · split <;> simp
+        · simp
 
 /-- what a `VISIBLE` verdict of `ref_cavity_enlarge_visible` carries -/
 structure VisibleOutcome (g : Grid α) (c c' : Cav) : Prop where
@@ -364,5 +489,428 @@ theorem enlargeVisible_step (g g' : Grid α) (c c' c'' : Cav) (hok : GridOK g) (
   exact (enlargeVisible_visible hχ g c c' hinv h0 h hvis).2.1 (hled H χ hχ hd)
 
 end loops
+
+
+/-! ## 3. the form functions under the history theorem -/
+
+/-- the input of an a-priori statement: a grid with consistent blank chains and adjacency, non-degenerate tets,
+    whose signed boundary chain (tets minus boundary tris) vanishes for every alternating `φ` — a conforming mesh -/
+structure MeshConf (g : Grid α) : Prop where
+  ok : GridOK g
+  tetsOrder : OrderOK g.tets
+  trisOrder : OrderOK g.tris
+  conf : ∀ (H : Type) [AddCommGroup H] (χ : Int → Int → Int → H), Alt χ → meshBd χ g = 0
+
+/-- **formEdgeSwap_ledger** (`ref_cavity_form_edge_swap`, the 3-D edge swap = cavity of the tets around an edge + the
+    chosen node, with the two boundary tris and the four segs when the edge is on the boundary).  On a conforming grid,
+    if the call returns ok with the state still unknown (anything else — `PARTITION_CONSTRAINED`, `INCONSISTENT`,
+    `BOUNDARY_CONSTRAINED`, an error status — blocks `ref_cavity_replace`), at least one tet is around the edge and no
+    tet beyond those was pulled in by a cancelling seg, then the cavity lists exactly the tets and tris around the edge
+    and satisfies the ledger equation: face list = boundary of the tet set, the faces through the edge cancelled
+    against each other and against the two boundary tris, the cone of the four segs added. -/
+theorem formEdgeSwap_ledger {φ : Int → Int → Int → G} (hφ : Alt φ) (hd : Diag φ) (g : Grid α) (hg : MeshConf g)
+    (n0 n1 node : Int) (c' : Cav) (h : formEdgeSwap g Cav.create n0 n1 node = (.ok, c')) (hs : c'.state = .unknown)
+    (hne : g.tets.having2 Tet.nodes n0 n1 ≠ [])
+    (hextra : c'.tetList = (g.tets.having2 Tet.nodes n0 n1).map fun p => (p.1 : Int)) :
+    EdgeFormed φ g n0 n1 c' ∧ LedgerEq φ g c' := by
+  have hf := formEdgeSwap_formed hφ hd g n0 n1 node c' h hs hne hextra
+  exact ⟨hf, hf.ledgerEq (edgeMatched_of_conforming hφ g n0 n1 hg.tetsOrder hg.trisOrder (hg.conf G))⟩
+
+/-- **formEdgeSplit_ledger** (`ref_cavity_form_edge_split`: the tets around the edge, the one or two boundary tris on
+    it, the sides of those tris other than the edge as segs — plus the two explicit half-edge segs when there is one
+    tri only).  Same statement as for the swap: on a conforming grid a call that returns ok / state unknown and pulled
+    no further tet in leaves a cavity that lists exactly the cells around the edge and satisfies the ledger equation. -/
+theorem formEdgeSplit_ledger {φ : Int → Int → Int → G} (hφ : Alt φ) (hd : Diag φ) (g : Grid α) (hg : MeshConf g)
+    (n0 n1 newNode : Int) (c' : Cav) (h : formEdgeSplit g Cav.create n0 n1 newNode = (.ok, c'))
+    (hs : c'.state = .unknown) (hne : g.tets.having2 Tet.nodes n0 n1 ≠ [])
+    (hextra : c'.tetList = (g.tets.having2 Tet.nodes n0 n1).map fun p => (p.1 : Int)) :
+    EdgeFormed φ g n0 n1 c' ∧ LedgerEq φ g c' := by
+  have hf := formEdgeSplit_formed hφ hd g n0 n1 newNode c' h hs hne hextra
+  exact ⟨hf, hf.ledgerEq (edgeMatched_of_conforming hφ g n0 n1 hg.tetsOrder hg.trisOrder (hg.conf G))⟩
+
+/-- **swap_area_conserved** (the boundary edge swap, planar-patch case and beyond): for the cavity
+    `ref_cavity_form_edge_swap` leaves on a boundary edge whose two tris have three distinct valid nodes each, the four
+    segs `(n0,n3) (n3,n1) (n1,n2) (n2,n0)` are the signed boundary of the two listed tris (`ref_swap_node23`), hence
+    the two boundary tris `ref_cavity_replace` creates have exactly the vector area of the two it removes — each
+    component of `Σ ref_node_tri_normal`, exact arithmetic, any node positions. -/
+theorem swap_area_conserved (x : Int → Refine.Model.Geom.V3 ℝ) (g : Grid α) (n0 n1 node : Int) (hne01 : n0 ≠ n1)
+    (hgood : ∀ p ∈ g.tris.having2 Tri.nodes n0 n1, TriGood p.2)
+    (c' : Cav) (h : formEdgeSwap g Cav.create n0 n1 node = (.ok, c')) (hs : c'.state = .unknown)
+    (hne : g.tets.having2 Tet.nodes n0 n1 ≠ [])
+    (hextra : c'.tetList = (g.tets.having2 Tet.nodes n0 n1).map fun p => (p.1 : Int)) :
+    ((newTris c').map fun t => (Refine.Model.Geom.triNormal (x t.n0) (x t.n1) (x t.n2)).x).sum =
+      (c'.triList.map fun cell => match g.tris.get? cell with
+        | some t => (Refine.Model.Geom.triNormal (x t.n0) (x t.n1) (x t.n2)).x | none => 0).sum ∧
+    ((newTris c').map fun t => (Refine.Model.Geom.triNormal (x t.n0) (x t.n1) (x t.n2)).y).sum =
+      (c'.triList.map fun cell => match g.tris.get? cell with
+        | some t => (Refine.Model.Geom.triNormal (x t.n0) (x t.n1) (x t.n2)).y | none => 0).sum ∧
+    ((newTris c').map fun t => (Refine.Model.Geom.triNormal (x t.n0) (x t.n1) (x t.n2)).z).sum =
+      (c'.triList.map fun cell => match g.tris.get? cell with
+        | some t => (Refine.Model.Geom.triNormal (x t.n0) (x t.n1) (x t.n2)).z | none => 0).sum :=
+  replace_area_vector x g c'
+    (fun χ hχ => formEdgeSwap_segchain hχ g n0 n1 node hne01 hgood c' h hs hne hextra)
+
+section swappipe
+variable [Refine.Scalar α]
+
+theorem checkVisible_frame (g : Grid α) (c : Cav) :
+    (checkVisible g c).2.faces = c.faces ∧ (checkVisible g c).2.segs = c.segs ∧ (checkVisible g c).2.node = c.node ∧
+    (checkVisible g c).2.surfNode = c.surfNode ∧ (checkVisible g c).2.tetList = c.tetList ∧
+    (checkVisible g c).2.triList = c.triList := by
+  unfold checkVisible
+  split
+  · exact ⟨rfl, rfl, rfl, rfl, rfl, rfl⟩
+  · split
+    · exact ⟨rfl, rfl, rfl, rfl, rfl, rfl⟩
+    · split <;> exact ⟨rfl, rfl, rfl, rfl, rfl, rfl⟩
+
+/-- **swap_accept_conforming**: the whole pipeline of `ref_cavity_swap_tet_pass` for the chosen candidate —
+    `form_edge_swap → check_visible → replace` — on a conforming grid: if `ref_cavity_replace` accepts, the step is a
+    `CavStep2`, the new grid is again conforming (`meshBd χ = 0` for every alternating `χ` vanishing on repeated
+    nodes) and keeps the grid invariant.  (`hnd`: the live faces are non-degenerate — part of the executable
+    certificate `certOk`.) -/
+theorem swap_accept_conforming (g g' : Grid α) (hg : MeshConf g) (n0 n1 node : Int) (c1 c3 : Cav)
+    (h : formEdgeSwap g Cav.create n0 n1 node = (.ok, c1)) (hs : c1.state = .unknown)
+    (hne : g.tets.having2 Tet.nodes n0 n1 ≠ [])
+    (hextra : c1.tetList = (g.tets.having2 Tet.nodes n0 n1).map fun p => (p.1 : Int))
+    (hnd : ∀ f ∈ c1.validFaces, Nondeg f)
+    (hrep : replace g (checkVisible g c1).2 = (.ok, c3, g')) :
+    CavStep2 g g' ∧ GridOK g' ∧
+    ∀ (H : Type) [AddCommGroup H] (χ : Int → Int → Int → H), Alt χ → Diag χ → meshBd χ g' = 0 := by
+  obtain ⟨e1, e2, e3, e4, e5, e6⟩ := checkVisible_frame g c1
+  have hstep : CavStep2 g g' := by
+    refine ⟨(checkVisible g c1).2, c3, ?_, ?_, ?_, ?_, hrep⟩
+    · intro f hf; exact hnd f (by simpa [Cav.validFaces, e1] using hf)
+    · intro cell hc
+      rw [e5, hextra] at hc
+      obtain ⟨p, hp, rfl⟩ := List.mem_map.mp hc
+      exact ⟨p.2, having2_get g.tets Tet.nodes n0 n1 p hp⟩
+    · intro cell hc
+      have hφ0 : Alt (fun _ _ _ => (0 : Int)) := ⟨fun _ _ _ => rfl, fun _ _ _ => by simp⟩
+      have hd0 : Diag (fun _ _ _ => (0 : Int)) := fun _ _ => rfl
+      have hf := (formEdgeSwap_ledger hφ0 hd0 g hg n0 n1 node c1 h hs hne hextra).1
+      rw [e6, hf.tris] at hc
+      obtain ⟨p, hp, rfl⟩ := List.mem_map.mp hc
+      exact ⟨p.2, having2_get g.tris Tri.nodes n0 n1 p hp⟩
+    · intro H _ χ hχ hd
+      have hl := (formEdgeSwap_ledger hχ hd g hg n0 n1 node c1 h hs hne hextra).2
+      unfold LedgerEq ledgerVal at hl ⊢
+      simp only [Cav.validSegs, Cav.segNode, e1, e2, e3, e4, e5, e6] at hl ⊢
+      exact hl
+  refine ⟨hstep, ?_, ?_⟩
+  · have hφ0 : Alt (fun _ _ _ => (0 : Int)) := ⟨fun _ _ _ => rfl, fun _ _ _ => by simp⟩
+    exact (replace_mesh_conforming_boundary hφ0 (fun _ _ => rfl) g g' hg.ok hstep).1
+  · intro H _ χ hχ hd
+    rw [(replace_mesh_conforming_boundary hχ hd g g' hg.ok hstep).2]
+    exact hg.conf H χ hχ
+
+end swappipe
+
+
+/-- what the collapse statements need of the two vertex balls: distinct ends, at least one tet at `n0`, and
+    adjacency walks that list each cell once -/
+structure BallLists (g : Grid α) (n0 n1 : Int) : Prop where
+  ne : n0 ≠ n1
+  some : g.tets.having Tet.nodes n0 ≠ []
+  t0 : ((g.tets.having Tet.nodes n0).map (·.1)).Nodup
+  t1 : ((g.tets.having Tet.nodes n1).map (·.1)).Nodup
+  s0 : ((g.tris.having Tri.nodes n0).map (·.1)).Nodup
+  s1 : ((g.tris.having Tri.nodes n1).map (·.1)).Nodup
+
+/-- **formEdgeCollapse_ledger** (`ref_cavity_form_edge_collapse`).  On a conforming grid, if the call returns ok with
+    the state still unknown and no tet beyond the balls of the two ends was pulled in by a cancelling seg, the cavity
+    lists the ball of `n0` followed by the rest of the ball of `n1` (tets and boundary tris), its lists are duplicate
+    free and live, and it satisfies the ledger equation: the faces the loops skip (those containing the kept node, all
+    faces of the tets that hold both ends) cancel against each other and against the listed boundary tris. -/
+theorem formEdgeCollapse_ledger {φ : Int → Int → Int → G} (hφ : Alt φ) (hd : Diag φ) (g : Grid α) (hg : MeshConf g)
+    (n0 n1 : Int) (hb : BallLists g n0 n1) (c' : Cav) (h : formEdgeCollapse g Cav.create n0 n1 = (.ok, c'))
+    (hs : c'.state = .unknown)
+    (hextra : c'.tetList =
+      ((ballA g.tets Tet.nodes n0) ++ (ballB g.tets Tet.nodes n0 n1)).map fun p => (p.1 : Int)) :
+    BallFormed φ g n0 n1 c' ∧ CavOK g c' ∧ LedgerEq φ g c' := by
+  have hf := formEdgeCollapse_formed hφ hd g n0 n1 c' h hs hb.some hb.t0 hb.t1 hb.s0 hb.s1 hextra
+  exact ⟨hf, hf.cavInv hb.t0 hb.t1 hb.s0 hb.s1,
+    hf.ledgerEq (ballMatched_of_conforming hφ g n0 n1 hb.ne hg.tetsOrder hg.trisOrder (hg.conf G))⟩
+
+section collapsepipe
+variable [Refine.Scalar α]
+
+/-- **collapse_accept_conforming**: the cavity fall-back of `ref_collapse_to_remove_node1` —
+    `form_edge_collapse → enlarge_visible → (ratio, change) → replace` — on a conforming grid: if the enlarge loop
+    comes back ok + `VISIBLE` and `ref_cavity_replace` accepts, the step is a `CavStep2`, the new grid is conforming
+    again and keeps the grid invariant, whatever cavity the loop ended with.  (`hnd`: the live faces after the form
+    call are non-degenerate — part of `certOk`; the acceptance tests only decide WHETHER replace is called.) -/
+theorem collapse_accept_conforming (g g' : Grid α) (hg : MeshConf g) (n0 n1 : Int) (hb : BallLists g n0 n1)
+    (c1 c2 c3 : Cav) (h : formEdgeCollapse g Cav.create n0 n1 = (.ok, c1)) (hs : c1.state = .unknown)
+    (hextra : c1.tetList =
+      ((ballA g.tets Tet.nodes n0) ++ (ballB g.tets Tet.nodes n0 n1)).map fun p => (p.1 : Int))
+    (hnd : ∀ f ∈ c1.validFaces, Nondeg f)
+    (he : enlargeVisible g c1 = .ret .ok c2) (hvis : c2.state = .visible)
+    (hrep : replace g c2 = (.ok, c3, g')) :
+    CavStep2 g g' ∧ GridOK g' ∧
+    ∀ (H : Type) [AddCommGroup H] (χ : Int → Int → Int → H), Alt χ → Diag χ → meshBd χ g' = 0 := by
+  have hφ0 : Alt (fun _ _ _ => (0 : Int)) := ⟨fun _ _ _ => rfl, fun _ _ _ => by simp⟩
+  have hd0 : Diag (fun _ _ _ => (0 : Int)) := fun _ _ => rfl
+  have hinv := (formEdgeCollapse_ledger hφ0 hd0 g hg n0 n1 hb c1 h hs hextra).2.1
+  have hstep : CavStep2 g g' :=
+    enlargeVisible_step g g' c1 c2 c3 hg.ok hinv hs hnd
+      (fun H _ χ hχ hd => (formEdgeCollapse_ledger hχ hd g hg n0 n1 hb c1 h hs hextra).2.2) he hvis hrep
+  refine ⟨hstep, (replace_mesh_conforming_boundary hφ0 hd0 g g' hg.ok hstep).1, ?_⟩
+  intro H _ χ hχ hd
+  rw [(replace_mesh_conforming_boundary hχ hd g g' hg.ok hstep).2]
+  exact hg.conf H χ hχ
+
+end collapsepipe
+
+/-! ### non-vacuity: an 8-tet star around an interior edge, and a boundary edge with two tris -/
+
+/-- build a grid from points (all owned), tets and tris -/
+def mkGrid (pts : List (Refine.Model.Geom.V3 Int)) (tets : List Tet) (tris : List Tri) : Grid Int :=
+  let g : Grid Int := pts.foldl (fun g p => (g.addNode ⟨p, true⟩).1) Grid.create
+  let g := tets.foldl (fun g t => { g with tets := (g.tets.add t).1 }) g
+  tris.foldl (fun g t => { g with tris := (g.tris.add t).1 }) g
+
+/-- edge 0-1 along z, ring 2..9 on an octagon at mid height: 8 tets `(0,1,r_k,r_k+1)`, 16 outer boundary tris -/
+def star8 : Grid Int :=
+  mkGrid [⟨0, 0, 0⟩, ⟨0, 0, 12⟩, ⟨12, 0, 6⟩, ⟨9, 9, 6⟩, ⟨0, 12, 6⟩, ⟨-9, 9, 6⟩, ⟨-12, 0, 6⟩, ⟨-9, -9, 6⟩, ⟨0, -12, 6⟩,
+      ⟨9, -9, 6⟩]
+    ((List.range 8).map fun k => ⟨0, 1, (2 + k : Nat), (2 + (k + 1) % 8 : Nat)⟩)
+    ((List.range 8).flatMap fun k =>
+      [⟨1, (2 + (k + 1) % 8 : Nat), (2 + k : Nat), 5⟩, ⟨0, (2 + k : Nat), (2 + (k + 1) % 8 : Nat), 5⟩])
+
+/-- boundary edge 0-1: open fan of 4 tets over the half ring 2..6, the two boundary tris `(0,1,2)`, `(0,6,1)` on the
+    edge with face id 7, 8 outer tris with face id 5 -/
+def fan4 : Grid Int :=
+  mkGrid [⟨0, 0, 0⟩, ⟨0, 0, 12⟩, ⟨12, 0, 6⟩, ⟨9, 9, 6⟩, ⟨0, 12, 6⟩, ⟨-9, 9, 6⟩, ⟨-12, 0, 6⟩]
+    ((List.range 4).map fun k => ⟨0, 1, (2 + k : Nat), (3 + k : Nat)⟩)
+    ([⟨0, 1, 2, 7⟩, ⟨0, 6, 1, 7⟩] ++ (List.range 4).flatMap fun k =>
+      [⟨1, (3 + k : Nat), (2 + k : Nat), 5⟩, ⟨0, (2 + k : Nat), (3 + k : Nat), 5⟩])
+
+theorem gridOK_of_valid (g : Grid Int) (h1 : SlotsInv g.tets.slots) (h2 : SlotsInv g.tris.slots)
+    (h3 : ∀ t ∈ g.tets.valid, TetNondeg t) : GridOK g :=
+  ⟨⟨h1, h2⟩, fun cell t h => h3 t (get?_mem_valid g.tets cell t () h)⟩
+
+instance (f : Face) : Decidable (Nondeg f) := by unfold Nondeg; infer_instance
+instance {β : Type} [DecidableEq β] (s : Cells β) : Decidable (OrderOK s) := by unfold OrderOK; infer_instance
+
+theorem star8_conf : MeshConf star8 :=
+  ⟨gridOK_of_valid star8 (by decide +kernel) (by decide +kernel) (by decide), by decide, by decide,
+    fun _ _ χ hχ => meshBd_zero_of_orient hχ star8 (by decide)⟩
+
+theorem fan4_conf : MeshConf fan4 :=
+  ⟨gridOK_of_valid fan4 (by decide +kernel) (by decide +kernel) (by decide), by decide, by decide,
+    fun _ _ χ hχ => meshBd_zero_of_orient hχ fan4 (by decide)⟩
+
+
+/-- hypotheses of `formEdgeSwap_ledger`, `swap_accept_conforming`, `certified_step`: the 8-tet star, swap of the
+    interior edge 0-1 from node 2 — status ok, state unknown, 8 tets listed, certificate ok, visible, replace accepted
+    (8 tets out, 12 in) -/
+example :
+    (formEdgeSwap star8 Cav.create 0 1 2).1 = .ok ∧ (formEdgeSwap star8 Cav.create 0 1 2).2.state = .unknown ∧
+    star8.tets.having2 Tet.nodes 0 1 ≠ [] ∧
+    (formEdgeSwap star8 Cav.create 0 1 2).2.tetList = (star8.tets.having2 Tet.nodes 0 1).map (fun p => (p.1 : Int)) ∧
+    (∀ f ∈ (formEdgeSwap star8 Cav.create 0 1 2).2.validFaces, Nondeg f) ∧
+    certOk star8 (formEdgeSwap star8 Cav.create 0 1 2).2 = true ∧
+    (@replace Int star8 (@checkVisible Int intScalar star8 (formEdgeSwap star8 Cav.create 0 1 2).2).2).1 = .ok ∧
+    (@replace Int star8 (@checkVisible Int intScalar star8 (formEdgeSwap star8 Cav.create 0 1 2).2).2).2.2.tets.valid.length
+      = 12 := by
+  decide +kernel
+
+/-- the boundary edge with two tris, swap from node 4: the two boundary tris are listed, four segs (two attached to
+    the seg node 2), certificate ok, replace accepted: 4 tets out, 6 in; tris `(0,1,2)`, `(0,6,1)` out,
+    `(0,6,2)`, `(6,1,2)` in with the inherited face id 7 -/
+example :
+    (formEdgeSwap fan4 Cav.create 0 1 4).1 = .ok ∧ (formEdgeSwap fan4 Cav.create 0 1 4).2.state = .unknown ∧
+    (formEdgeSwap fan4 Cav.create 0 1 4).2.triList.length = 2 ∧
+    (formEdgeSwap fan4 Cav.create 0 1 4).2.validSegs.length = 4 ∧
+    (formEdgeSwap fan4 Cav.create 0 1 4).2.tetList = (fan4.tets.having2 Tet.nodes 0 1).map (fun p => (p.1 : Int)) ∧
+    (∀ f ∈ (formEdgeSwap fan4 Cav.create 0 1 4).2.validFaces, Nondeg f) ∧
+    certOk fan4 (formEdgeSwap fan4 Cav.create 0 1 4).2 = true ∧
+    (@replace Int fan4 (@checkVisible Int intScalar fan4 (formEdgeSwap fan4 Cav.create 0 1 4).2).2).1 = .ok ∧
+    newTris (formEdgeSwap fan4 Cav.create 0 1 4).2 = [⟨0, 6, 2, 7⟩, ⟨6, 1, 2, 7⟩] := by
+  decide +kernel
+
+
+/-! ## 2(d) / C13. rejected ⇒ no trace
+
+In the model `ref_cavity_form_*`, `ref_cavity_enlarge_*`, `ref_cavity_check_visible`, the acceptance tests and
+`ref_cavity_free` cannot touch the grid: they produce a cavity (private lists) and read the grid; only
+`ref_cavity_replace` returns a grid.  That the C has the same shape is what the tie checks (structural grid hash
+before `ref_cavity_create` / after `ref_cavity_free` on every path that does not reach `replace`).  What is proved
+here is the logic of the callers: the grid they hand back differs from the one they got only through a
+`ref_cavity_replace` of a cavity that is `VISIBLE` and passed the caller's acceptance test. -/
+
+/-- **replace_requires_visible**: `ref_cavity_replace` on a cavity in any state other than `VISIBLE` fails at its first
+    test and returns the grid (cells, node validity, free lists: the whole value) and the cavity untouched -/
+theorem replace_requires_visible (g : Grid α) (c : Cav) (h : c.state ≠ .visible) :
+    replace g c = (.failure, c, g) := by
+  unfold replace
+  rw [if_pos h]
+
+/-- an inconsistent face or seg list blocks `ref_cavity_replace` as well (the grid is returned untouched) -/
+theorem replace_inconsistent_no_trace (g : Grid α) (c : Cav) (h : ¬ VerifyPassed c) :
+    (replace g c).2.2 = g := by
+  unfold replace
+  split
+  · rfl
+  · rcases verifyFaceManifold_cases c with hf | hf | hf <;> rw [hf] <;> simp only []
+    · -- the face verification returned the cavity unchanged: then it was `inconsistent` already
+      by_cases hs : c.state = .inconsistent
+      · rcases verifySegManifold_cases c with hw | hw | hw <;> rw [hw] <;> simp only []
+        · rw [if_pos (by rw [hs]; decide)]
+        · rw [if_pos (by decide)]
+      · exact absurd ⟨hf, hs⟩ h
+    · have : verifySegManifold { c with state := .inconsistent } = (.ok, { c with state := .inconsistent }) := by
+        unfold verifySegManifold; simp
+      rw [this]; simp only []
+      rw [if_pos (by decide)]
+
+section callers
+variable [Refine.Scalar α]
+
+/-- **cavity_reject_no_trace (collapse path)**: the grid `ref_collapse_to_remove_node1`'s cavity fall-back hands back is
+    the one it got, unless a cavity in state `VISIBLE` that passed `ref_cavity_ratio` and
+    `min_add > collapse_quality_absolute` was given to `ref_cavity_replace`. -/
+theorem collapseCavityPath_no_trace (g g' : Grid α) (nd : Refine.Model.Collapse.Nodes α) (a : Adapt α) (n0 n1 : Int)
+    (s : Refine.Model.Cavity.St) (rep : Bool) (h : collapseCavityPath g nd a n0 n1 = (s, rep, g')) :
+    g' = g ∨ ∃ c minDel minAdd, c.state = .visible ∧ cavRatio nd a.postMin a.postMax c = true ∧
+      cavChange g nd minVolume c = (.ok, minDel, minAdd) ∧ (a.collapseQualityAbsolute <. minAdd) = true ∧
+      g' = (replace g c).2.2 ∧ rep = ((replace g c).1 == .ok) := by
+  unfold collapseCavityPath at h
+  split at h
+  · split at h
+    · simp only [Prod.mk.injEq] at h; exact Or.inl h.2.2.symm
+    · split at h
+      · next c hc =>
+        split at h
+        · simp only [Prod.mk.injEq] at h; exact Or.inl h.2.2.symm
+        · next hvis =>
+          split at h
+          · next minDel minAdd hch =>
+            split at h
+            · next hacc =>
+              simp only [Prod.mk.injEq] at h
+              simp only [Bool.and_eq_true] at hacc
+              exact Or.inr ⟨c, minDel, minAdd, by simpa using hvis, hacc.1, hch, hacc.2, h.2.2.symm, h.2.1.symm⟩
+            · simp only [Prod.mk.injEq] at h; exact Or.inl h.2.2.symm
+          · simp only [Prod.mk.injEq] at h; exact Or.inl h.2.2.symm
+      · simp only [Prod.mk.injEq] at h; exact Or.inl h.2.2.symm
+      · simp only [Prod.mk.injEq] at h; exact Or.inl h.2.2.symm
+  · simp only [Prod.mk.injEq] at h; exact Or.inl h.2.2.symm
+
+/-- **cavity_reject_no_trace (split path)**: same for the `try_cavity` branch of `ref_split_pass` -/
+theorem splitCavityPath_no_trace (g g' : Grid α) (nd : Refine.Model.Collapse.Nodes α) (a : Adapt α)
+    (conf : Cav → Seg → Bool) (hasEdge : Bool) (n0 n1 newNode : Int) (s : Refine.Model.Cavity.St) (rep : Bool)
+    (h : splitCavityPath g nd a conf hasEdge n0 n1 newNode = (s, rep, g')) :
+    g' = g ∨ ∃ c minDel minAdd, c.state = .visible ∧ (cavRatio nd a.postMin a.postMax c || hasEdge) = true ∧
+      cavChange g nd minVolume c = (.ok, minDel, minAdd) ∧ (a.splitQualityAbsolute <. minAdd) = true ∧
+      g' = (replace g c).2.2 ∧ rep = ((replace g c).1 == .ok) := by
+  unfold splitCavityPath at h
+  split at h
+  · simp only at h
+    split at h
+    · simp only [Prod.mk.injEq] at h; exact Or.inl h.2.2.symm
+    · next c hc =>
+      split at h
+      · simp only [Prod.mk.injEq] at h; exact Or.inl h.2.2.symm
+      · next hvis =>
+        split at h
+        · next minDel minAdd hch =>
+          split at h
+          · next hacc =>
+            simp only [Prod.mk.injEq] at h
+            simp only [Bool.and_eq_true] at hacc
+            exact Or.inr ⟨c, minDel, minAdd, by simpa using hvis, hacc.1, hch, hacc.2, h.2.2.symm, h.2.1.symm⟩
+          · simp only [Prod.mk.injEq] at h; exact Or.inl h.2.2.symm
+        · simp only [Prod.mk.injEq] at h; exact Or.inl h.2.2.symm
+  · simp only [Prod.mk.injEq] at h; exact Or.inl h.2.2.symm
+
+/-! ## 4. acceptance tests (logic only; the numbers are `Float`-tied) -/
+
+/-- **swapTetTrial_accepts**: a candidate of `ref_cavity_swap_tet_pass` enters the `best` competition only if its
+    cavity formed ok, is not `INCONSISTENT`, `ref_cavity_check_visible` made it `VISIBLE`, `ref_cavity_ratio` allowed
+    it and `ref_cavity_change` reported `min_add − min_del > 0.0001`; the value it competes with is `min_add`. -/
+theorem swapTetTrial_accepts (g : Grid α) (nd : Refine.Model.Collapse.Nodes α) (a : Adapt α) (n0 n1 n2 : Int)
+    (s : Refine.Model.Cavity.St) (q : α) (h : swapTetTrial g nd a n0 n1 n2 = (s, some q)) :
+    s = .ok ∧ ∃ c0 c minDel, formEdgeSwap g Cav.create n0 n1 n2 = (.ok, c0) ∧ c0.state ≠ .inconsistent ∧
+      checkVisible g c0 = (.ok, c) ∧ c.state = .visible ∧ cavRatio nd a.postMin a.postMax c = true ∧
+      cavChange g nd minVolume c = (.ok, minDel, q) ∧ (Scalar.ofDec 1 (-4) <. (q -. minDel)) = true := by
+  unfold swapTetTrial at h
+  split at h
+  · next c0 hf =>
+    split at h
+    · simp at h
+    · next hinc =>
+      split at h
+      · next c hv =>
+        split at h
+        · simp at h
+        · next hvis =>
+          split at h
+          · simp at h
+          · next hr =>
+            split at h
+            · next minDel minAdd hch =>
+              split at h
+              · next hgt =>
+                simp only [Prod.mk.injEq, Option.some.injEq] at h
+                obtain ⟨rfl, rfl⟩ := h
+                exact ⟨rfl, c0, c, minDel, hf, hinc, hv, by simpa using hvis, by simpa using hr, hch, hgt⟩
+              · simp at h
+            · simp at h
+      · simp at h
+  · simp at h
+
+/-- the grid after the body of `ref_cavity_swap_tet_pass` for one tet is the input grid unless a best candidate was
+    chosen, and then it is `ref_cavity_replace` of the re-formed, re-checked cavity of that candidate -/
+theorem swapTetCell_no_trace (g g' : Grid α) (nd : Refine.Model.Collapse.Nodes α) (a : Adapt α)
+    (gate : Int → Int → Bool) (t : Tet) (s : Refine.Model.Cavity.St) (h : swapTetCell g nd a gate t = (s, g')) :
+    g' = g ∨ ∃ e0 e1 e2 c0 c, swapTetBest g nd a gate t = (.ok, some (e0, e1, e2)) ∧
+      formEdgeSwap g Cav.create e0 e1 e2 = (.ok, c0) ∧ checkVisible g c0 = (.ok, c) ∧ g' = (replace g c).2.2 := by
+  unfold swapTetCell at h
+  split at h
+  · simp only [Prod.mk.injEq] at h; exact Or.inl h.2.symm
+  · next e0 e1 e2 hb =>
+    split at h
+    · next c0 hf =>
+      split at h
+      · next c hv =>
+        simp only [Prod.mk.injEq] at h
+        exact Or.inr ⟨e0, e1, e2, c0, c, hb, hf, hv, h.2.symm⟩
+      · simp only [Prod.mk.injEq] at h; exact Or.inl h.2.symm
+    · simp only [Prod.mk.injEq] at h; exact Or.inl h.2.symm
+  · simp only [Prod.mk.injEq] at h; exact Or.inl h.2.symm
+
+end callers
+
+section ratioreal
+open Refine.ScalarReal
+
+/-- **cavRatio_band** (over ℝ): `ref_cavity_ratio` allows the cavity iff every edge from the cavity node to a node of
+    a live, unattached face has its metric length inside `[post_min_ratio, post_max_ratio]` -/
+theorem cavRatio_band (nd : Refine.Model.Collapse.Nodes ℝ) (lo hi : ℝ) (c : Cav) :
+    cavRatio nd lo hi c = true ↔
+      ∀ f ∈ c.validFaces, f.has c.node = false → ∀ v ∈ Face.nodes f,
+        lo ≤ Refine.Model.Collapse.nodeRatio nd c.node.toNat v.toNat ∧
+        Refine.Model.Collapse.nodeRatio nd c.node.toNat v.toNat ≤ hi := by
+  unfold cavRatio
+  simp only [List.all_eq_true, Bool.or_eq_true, Bool.not_eq_true', Bool.or_eq_false_iff]
+  constructor
+  · intro h f hf hatt v hv
+    rcases h f hf with h1 | h1
+    · rw [h1] at hatt; cases hatt
+    · have := h1 v hv
+      rw [lt_false_iff, lt_false_iff] at this
+      exact this
+  · intro h f hf
+    by_cases hatt : f.has c.node = true
+    · exact Or.inl hatt
+    · right
+      intro v hv
+      have := h f hf (by simpa using hatt) v hv
+      rw [lt_false_iff, lt_false_iff]
+      exact this
+
+end ratioreal
 
 end Refine.Props.C01Cavity2
